@@ -203,6 +203,11 @@ fn main() {
         Cmd::Init(None), Cmd::AddKey(vec![0, 1], vec![0, 1, 2, 3]), Cmd::SetThreshold(0, 2), Cmd::SetThreshold(1, 1), Cmd::SetThreshold(2, 1), Cmd::SetThreshold(3, 1),
         Cmd::RemoveKey(1, Some(0)), Cmd::Sign(vec![0, 1], None, false), Cmd::SetThreshold(0, 1), Cmd::Sign(vec![1], None, false), Cmd::Sign(vec![0], None, false),
     ]));
+    // a key that is in the key table but (no longer) in any role: removing it changes the signed content
+    jobs.push(("corpus-remove-unused-key-from-signed-file", vec![
+        Cmd::Init(None), Cmd::AddKey(vec![0, 1], vec![0, 1, 2, 3]), Cmd::SetThreshold(0, 2), Cmd::SetThreshold(1, 1), Cmd::SetThreshold(2, 1), Cmd::SetThreshold(3, 1),
+        Cmd::AddKey(vec![2], vec![3]), Cmd::RemoveKey(2, Some(3)), Cmd::Sign(vec![0], None, true), Cmd::RemoveKey(2, None), Cmd::Sign(vec![1], None, false), Cmd::Sign(vec![0, 1], None, false),
+    ]));
     let n = if thorough { 1500 } else { 150 };
     for i in 0..n {
         let mut r = Rng::new(args.seed, i);
